@@ -68,7 +68,7 @@ func (s step) String() string {
 		ts = append(ts, c.name+"="+strings.Join(ss, "+"))
 	}
 	for _, e := range s.ev {
-		es = append(es, strings.Join([]string{e.op, e.cn, e.sn, e.addr, e.port}, "."))
+		es = append(es, strings.Join([]string{e.op, e.cn, e.sn, e.addr, e.port}, "^"))
 	}
 	d := func(l []string, sep string) string {
 		if len(l) == 0 {
@@ -151,7 +151,7 @@ func parseStep(s string) (step, bool) {
 		st.t = append(st.t, ct)
 	}
 	for _, e := range splitNE(f[3], ",") {
-		p := strings.Split(e, ".")
+		p := strings.Split(e, "^")
 		if len(p) != 5 {
 			return st, false
 		}
@@ -164,12 +164,25 @@ func parseStep(s string) (step, bool) {
 
 var own *vh.Rand
 
+// addresses: short tokens, IPv4, IPv6 literals (also two spellings of the same address: distinct strings are distinct
+// backends for bfe), a hostname
+var addrPool = []string{"a0", "a1", "a2", "10.0.0.1", "::1", "0:0:0:0:0:0:0:1", "fe80::1", "2001:db8::1", "h1.example.com"}
+
+func genAddr(r *vh.Rand) string {
+	if r.Chance(1, 2) {
+		return addrPool[r.Intn(3)]
+	}
+	return addrPool[r.Intn(len(addrPool))]
+}
+
+func configuredKey(b *backend.BfeBackend) string { return b.Addr + ":" + strconv.Itoa(b.Port) }
+
 func genBack(r *vh.Rand) bconf {
 	w := r.Range(1, 3)
 	if r.Chance(1, 8) {
 		w = 0
 	}
-	return bconf{name: "n" + strconv.Itoa(r.Intn(10)), addr: "a" + strconv.Itoa(r.Intn(5)), port: 80 + r.Intn(2), weight: w}
+	return bconf{name: "n" + strconv.Itoa(r.Intn(10)), addr: genAddr(r), port: 80 + r.Intn(2), weight: w}
 }
 
 func genSubT(r *vh.Rand, name string) subT {
@@ -321,7 +334,7 @@ func genEvents(r *vh.Rand, t []clT) []event {
 	if len(t) == 0 {
 		return nil
 	}
-	n := r.Intn(4)
+	n := r.Intn(6)
 	for i := 0; i < n; i++ {
 		c := t[r.Intn(len(t))]
 		if len(c.subs) == 0 {
@@ -405,7 +418,8 @@ func (w *world) listing() (string, string) {
 		var ss []string
 		for _, s := range cl[n].VerifC09Subs() {
 			bs := s.Backends.VerifC09Backends()
-			sort.SliceStable(bs, func(i, j int) bool { return bs[i].Backend.AddrInfo < bs[j].Backend.AddrInfo })
+			// ordered by the CONFIGURED address and port, not by the implementation's own AddrInfo string
+			sort.SliceStable(bs, func(i, j int) bool { return configuredKey(bs[i].Backend) < configuredKey(bs[j].Backend) })
 			var os []string
 			for _, b := range bs {
 				if _, ok := w.seen[b.Backend]; !ok {
@@ -468,7 +482,7 @@ func (w *world) apply(e event) {
 			continue
 		}
 		for _, b := range s.Backends.VerifC09Backends() {
-			if b.Backend.AddrInfo == e.addr+":"+e.port {
+			if configuredKey(b.Backend) == e.addr+":"+e.port {
 				switch e.op {
 				case "d":
 					b.Backend.SetAvail(false)
